@@ -323,7 +323,15 @@ fn task(toks: &[&str]) -> String {
         });
         let stream = async_net::TcpStream::try_from(server_std).unwrap();
         let conn = servlin::internal::HttpConn::new(peer, stream);
-        let handler = |_req: servlin::Request| async move { Response::text(200, "ok") };
+        // the handler reports the method it was given in a response header (a body would not do: some methods'
+        // answers may legitimately go without one)
+        let handler = |req: servlin::Request| async move {
+            let m: String = req.method().chars().map(|c| if c.is_ascii_graphic() { c } else { '?' }).collect();
+            match servlin::AsciiString::try_from(m) {
+                Ok(v) => Response::text(200, "ok").with_header("x-method", v),
+                Err(_) => Response::text(200, "ok"),
+            }
+        };
         let permit = permit::Permit::new();
         let r = catch_unwind(AssertUnwindSafe(|| {
             futures_lite::future::block_on(servlin::internal::handle_http_conn(
@@ -341,7 +349,15 @@ fn task(toks: &[&str]) -> String {
         } else {
             "none".to_string()
         };
-        format!("task {code}{}", if r.is_err() { " task-panicked" } else { "" })
+        let head_end = wire.windows(4).position(|w| w == b"\r\n\r\n").unwrap_or(wire.len());
+        let mut method = String::new();
+        for line in wire[..head_end].split(|b| *b == b'\n') {
+            let line = if line.last() == Some(&b'\r') { &line[..line.len() - 1] } else { line };
+            if line.len() > 10 && line[..9].eq_ignore_ascii_case(b"x-method:") {
+                method = format!(" m={}", tok_of_bytes(&line[10..]));
+            }
+        }
+        format!("task {code}{method}{}", if r.is_err() { " task-panicked" } else { "" })
     });
     drop(guard);
     format!("{table} ;; {out}")
